@@ -260,7 +260,11 @@ func c18BuildCases(cp hermes.CropParam, group string, values int) (cases []c18Ca
 			{"KC", st.Kc, 0, 3, func(st *hermes.CropDevelopmentStage, v float64) { st.Kc = v }, 12},
 		} {
 			q := q
-			for _, v := range c18Alt(q.v, q.lo, q.hi, values) {
+			alts := c18Alt(q.v, q.lo, q.hi, values)
+			if q.v != 0 && s <= 3 && (q.name == "VSCHWELL" || q.name == "DAYL" || q.name == "DRYSWELL" || q.name == "LUKRIT") {
+				alts = append(alts, 0) // 0 is a valid value of these parameters (it switches the mechanism off), not "no override"
+			}
+			for _, v := range alts {
 				add(fmt.Sprintf("c_%s_%d", q.name, s), v, func(cp *hermes.CropParam, v float64) { q.set(&cp.CropDevelopmentStages[s-1], v) }, stageLine(s, q.k), 65, 0, c18Fmt(v))
 			}
 		}
